@@ -125,6 +125,21 @@ pub fn wasm(tier: &str, seed: u64) {
     emit_group(&shares[..tu].join("\r\n"), &epoch, "crlf");
     emit_group(&shares.join("\r\n"), &epoch, "crlf_above");
     emit_group(&shares[..tu].join(","), &epoch, "comma");
+    // VALID ADSS share sets that no STAR client made: any threshold-many shares of a sharing whose
+    // message is not the 32 bytes a client shares (0, 1, 31, 33, 200 bytes) and whose coins have any
+    // length - recovery succeeds and authenticates, the grouping call must answer like the core does
+    {
+      let ml = *g.pick(&[0usize, 1, 31, 32, 33, 200]);
+      let rl = *g.pick(&[0usize, 1, 32, 33, 100]);
+      let (am, ar) = (g.blob(ml), g.blob(rl));
+      let c = adss::Commune::new(t, am, ar, None);
+      let n = tu + g.below(2) as usize;
+      let v: Vec<String> = (0..n).map(|_| BASE64_STANDARD.encode(c.clone().share().expect("share").to_bytes())).collect();
+      emit_group(&v.join("\n"), &epoch, "valid_adss_set_other_message_length");
+      if tu >= 2 {
+        emit_group(&v[..tu - 1].join("\n"), &epoch, "valid_adss_set_below_threshold");
+      }
+    }
     // undecodable base64
     let bad: Vec<String> = {
       let s = &shares[0];
